@@ -178,10 +178,36 @@ Definition sd_reverse (c : scls) (rev : bool) : option bool :=
   | _ => Some rev
   end.
 Definition not_null (v : jv) : bool := match v with JNull => false | _ => true end.
-(* Element.__new__ records the keyword arguments that are not None; Element.__init__ updates with what reaches it *)
-Definition mk_user (c : scls) (kw : kwargs) (rev : bool) : kwargs :=
+Definition q_show_name : label := Eval compute in lbl "show_name".
+Definition q_show_value : label := Eval compute in lbl "show_value".
+Definition q_precision : label := Eval compute in lbl "precision".
+Definition q_label_offset : label := Eval compute in lbl "label_offset".
+(* the named parameters of each __init__ (Elements.py): they are consumed by the class; every other keyword argument is handed
+   on to schemdraw's Element.__init__ *)
+Definition ctor_params (c : scls) : list label :=
+  match c with
+  | CVoltageSource | CComplexVoltageSource => [q_name; q_V; q_reverse; q_precision]
+  | CCurrentSource | CComplexCurrentSource => [q_I; q_name; q_reverse; q_precision]
+  | CResistor => [q_R; q_name; q_show_name; q_show_value; q_reverse]
+  | CConductance => [q_G; q_name; q_show_name; q_show_value; q_reverse]
+  | CImpedance => [q_Z; q_name; q_show_name; q_show_value; q_precision; q_reverse]
+  | CAdmittance => [q_Y; q_name; q_show_name; q_show_value; q_precision; q_reverse]
+  | CACVoltageSource => [q_V; q_w; q_phi; q_name; q_show_name; q_show_value; q_sin; q_deg; q_reverse; q_precision]
+  | CACCurrentSource => [q_I; q_w; q_phi; q_name; q_show_name; q_show_value; q_sin; q_deg; q_reverse; q_precision]
+  | CRectVoltageSource => [q_V; q_w; q_phi; q_name; q_sin; q_deg; q_reverse]
+  | CRectCurrentSource => [q_I; q_w; q_phi; q_name; q_sin; q_deg; q_reverse]
+  | CCapacitor => [q_C; q_name; q_show_name; q_show_value; q_reverse]
+  | CInductance => [q_L; q_name; q_show_name; q_show_value; q_label_offset; q_reverse]
+  | CGround | CLine | CElement | COther _ => []
+  end.
+(* Element.__new__ records the keyword arguments that are not None; Element.__init__ updates with what reaches it: the
+   `reverse` the class passes on, then every keyword argument the class does not consume (a None among them IS recorded);
+   Ground.__init__(name='0') passes its name on, given or not *)
+Definition mk_user (c : scls) (kw : kwargs) (rev : bool) (nm : label) : kwargs :=
   let u := filter (fun kv => not_null (snd kv)) kw in
-  match sd_reverse c rev with Some b => dset u q_reverse (JBool b) | None => u end.
+  let u1 := match sd_reverse c rev with Some b => dset u q_reverse (JBool b) | None => u end in
+  let u2 := fold_left (fun d kv => if not_null (snd kv) || lmem (fst kv) (ctor_params c) then d else dset d (fst kv) JNull) kw u1 in
+  match c with CGround => dset u2 q_name (JStr nm) | _ => u2 end.
 
 Definition src_attrs (kw : kwargs) (rev : bool) (amp : label) (shift : bool) : res kwargs :=
   let* v := arg kw amp in let* w := arg kw q_w in let* ph := arg kw q_phi in
@@ -216,7 +242,7 @@ Definition construct (c : scls) (kw : kwargs) (ps pe : point) : res symbol :=
   let* rev := flag kw q_reverse in
   let* nm := ctor_name c kw in
   let* at_ := attrs_of c kw rev in
-  Ok {| s_cls := c; s_name := nm; s_reverse := rev; s_attr := at_; s_user := mk_user c kw rev; s_start := ps; s_end := pe |}.
+  Ok {| s_cls := c; s_name := nm; s_reverse := rev; s_attr := at_; s_user := mk_user c kw rev nm; s_start := ps; s_end := pe |}.
 
 (* ---------- CircuitComponentTranslators.py + components.py ---------- *)
 Record tcomp := { t_type : label; t_id : label; t_nodes : list point; t_vals : kwargs }.
